@@ -381,6 +381,9 @@ class EptMapResult:
 
         towers: t.List[t.List[Floor]] = []
         for _ in range(tower_count):
+            if len(view) < 14:
+                raise ValueError("Not enough data to unpack EptMapResult tower")
+
             tower_length = int.from_bytes(view[:8], byteorder="little")
             padding = -(tower_length + 4) % 8
 
